@@ -975,7 +975,9 @@ def main():
             'property_id': pid, 'tier': tier, 'seed': seed, 'level': 'proof',
             'coverage': {
                 'obligations': max(n_th, 1), 'discharged': discharged,
-                'checker_cmd': 'cd lean && lake build SSJ.Props.%s && lake env lean <#print axioms of every theorem>%s' % (pid, ' && lake env leanchecker SSJ.Props.%s' % pid if tier == 'thorough' else ''),
+                'checker_cmd': 'cd lean && lake build %s%s && lake env lean <#print axioms of every theorem of namespace SSJ.Props.%s>%s' % (
+                    ' '.join(prop_modules(pid)), ' SSJ.Proofs.GenLoops SSJ.Proofs.GenLoops2 SSJ.Proofs.GenLoops3' if pid in GENLOOPS_PROPS else '', pid,
+                    ' && lake env leanchecker <the same modules>' if tier == 'thorough' else ''),
                 'trusted_base': ['Lean 4.33 kernel' + (' + leanchecker re-check' if tier == 'thorough' else ''),
                                  'axioms: propext, Classical.choice, Quot.sound only (audited per theorem inside Lean; ' + ('result cached from an earlier run on exactly this tree: build_cached=true' if b['cached'] else 'this run') + ')',
                                  'tools/py2lean.py + lean/SSJ/Py/{Val,F64}.lean (semantics of the translated subset; validated by suite gen/f64)',
@@ -986,7 +988,7 @@ def main():
                 'programs': len((b['translator'] or {}).get('functions', [])) + len(t2.get('functions', []) if pid in GENLOOPS_PROPS else []),
                 'translated_functions': (b['translator'] or {}).get('functions', []),
                 'translated_loop_functions': {'used_by_this_property': pid in GENLOOPS_PROPS, 'functions': t2.get('functions', []), 'error': t2.get('error'),
-                                              'equality_with_model': 'lean/SSJ/Proofs/GenLoops.lean + GenLoops2.lean (SSJ.Gen2.*_eq: 41 functions), ' + ('build result cached for exactly this tree' if b['cached'] else 'rebuilt this run') if pid in GENLOOPS_PROPS else None},
+                                              'equality_with_model': 'lean/SSJ/Proofs/GenLoops.lean + GenLoops2.lean + GenLoops3.lean (SSJ.Gen2.*_eq: 41 functions), ' + ('build result cached for exactly this tree' if b['cached'] else 'rebuilt this run') if pid in GENLOOPS_PROPS else None},
                 'evaluations': total + sum(p['cases'] for p in per_oracle.values()),
                 'distinct_nontrivial': distinct_nontrivial,
                 'rule': 'correspondence cases are generated from one PRNG (VERIF_SEED); distinct = distinct request JSON; non-trivial = the real code '
